@@ -332,7 +332,8 @@ def gen_trr(rng, endian, double, natoms, nfr, blocks):
         for k in TRR_KEYS:
             if sz[k]:
                 n = 9 if k in ("box", "vir", "pres") else natoms * 3
-                v = [rng.randrange(-4000, 4001) / 8.0 for _ in range(n)]
+                # double-precision files carry values that single precision cannot hold (exact in binary64)
+                v = [rng.randrange(-4000, 4001) / 8.0 + (rng.randrange(1, 1000) * 2.0 ** -40 if double else 0.0) for _ in range(n)]
                 data += struct.pack(endian + str(n) + real, *v)
                 vals[k] = np.array(v, dtype=np.float64).reshape((3, 3) if n == 9 and k in ("box", "vir", "pres") else (natoms, 3))
         out += hdr + data
